@@ -233,6 +233,7 @@ R11_ZIP_ENUM = re.compile(r'for\s*\(\s*(\w+)\s*,\s*\(\s*(&?\w+)\s*,\s*(&?\w+)\s*
 R11_ZIP = re.compile(r'for\s*\(\s*(&?\w+)\s*,\s*(&?\w+)\s*\)\s*in\s+(\w+)\.iter\(\)\.zip\((\w+)\.iter\(\)\)\s*\{')
 R11_ENUM = re.compile(r'for\s*\(\s*(\w+)\s*,\s*(&?\w+)\s*\)\s*in\s+(\w+)\.iter\(\)\.enumerate\(\)\s*\{')
 R11_TAKE_ENUM = re.compile(r'for\s*\(\s*(\w+)\s*,\s*(&?\w+)\s*\)\s*in\s+(\w+)\.iter\(\)\.take\(([^{}]*?)\)\.enumerate\(\)\s*\{')
+R11_MUTSLICE = re.compile(r'for\s+(\w+)\s+in\s+&mut\s+(\w+)\[(\w+)\.\.\]\s*\{')
 R11_REF = re.compile(r'for\s+&(\w+)\s+in\s+(\w+)\.iter\(\)\s*\{')
 R11_PLAIN = re.compile(r'for\s+(\w+)\s+in\s+(\w+)\.iter\(\)\s*\{')
 
@@ -251,6 +252,7 @@ def rule_r11(text, fired):
         m.group(3), m.group(4), _bind(m.group(1), m.group(3) + '[vx_k]'), _bind(m.group(2), m.group(4) + '[vx_k]'))), text)
     text = R11_TAKE_ENUM.sub(c(lambda m: 'for %s in 0..vx_min(%s.len(), %s) { %s' % (m.group(1), m.group(3), m.group(4), _bind(m.group(2), '%s[%s]' % (m.group(3), m.group(1))))), text)
     text = R11_ENUM.sub(c(lambda m: 'for %s in 0..%s.len() { %s' % (m.group(1), m.group(3), _bind(m.group(2), '%s[%s]' % (m.group(3), m.group(1))))), text)
+    text = R11_MUTSLICE.sub(c(lambda m: 'let vx_n = %s.len(); for vx_k in %s..vx_n { let %s = &mut %s[vx_k];' % (m.group(2), m.group(3), m.group(1), m.group(2))), text)
     text = R11_REF.sub(c(lambda m: 'for vx_k in 0..%s.len() { let %s = %s[vx_k];' % (m.group(2), m.group(1), m.group(2))), text)
     text = R11_PLAIN.sub(c(lambda m: 'for vx_k in 0..%s.len() { let %s = &%s[vx_k];' % (m.group(2), m.group(1), m.group(2))), text)
     if n[0]:
